@@ -302,6 +302,68 @@ def _w_meshes(_):
     return t
 
 
+def _w_history(_):
+    """read one bounding volume -> move the geometry -> every bounding volume must contain the moved vertices
+    (bounding volumes of point clouds and meshes are cached values)."""
+    import trimesh
+
+    t = harness.Tally()
+    V = np.array([[0, 0, 0], [2, 0, 0], [0, 3, 0], [0, 0, 1], [2, 3, 1], [1, 1, 2]], dtype=float)
+    F = trimesh.convex.convex_hull(V).faces
+    c, s_ = 0.6, 0.8
+    R = np.eye(4)
+    R[:3, :3] = [[c, -s_, 0], [s_, c, 0], [0, 0, 1]]
+    R[:3, 3] = [1, -2, 3]
+    moves = {
+        "apply_translation": lambda g: g.apply_translation([50.0, -20.0, 7.0]),
+        "apply_transform(rigid)": lambda g: g.apply_transform(R.copy()),
+        "apply_scale(3)": lambda g: g.apply_scale(3.0),
+        "apply_obb": lambda g: g.apply_obb(),
+    }
+    readers = ["convex_hull", "bounding_box_oriented", "bounding_sphere", "bounding_cylinder", "bounding_box", "bounds", "ALL"]
+    for kind in ("PointCloud", "Trimesh"):
+        for reader in readers:
+            for mname, move in moves.items():
+                case = {"family": "history", "kind": kind, "read_first": reader, "move": mname}
+                t.evaluations += 1
+                t.nontrivial_count += 1
+                try:
+                    g = trimesh.PointCloud(V.copy()) if kind == "PointCloud" else trimesh.Trimesh(V.copy(), F.copy(), process=False)
+                    for r in (readers[:-1] if reader == "ALL" else [reader]):
+                        getattr(g, r)
+                    move(g)
+                    P = np.array(g.vertices)
+                    tol = 1e-7 * float(np.ptp(P, axis=0).max()) + 1e-9 * float(np.abs(P).max())
+                    # cached volumes first (see the C04 note: touching .vertices may itself refresh a cache)
+                    hull = g.convex_hull
+                    n = np.asarray(hull.face_normals)
+                    o = np.asarray(hull.triangles)[:, 0]
+                    if np.einsum("pfk,fk->pf", P[:, None, :] - o[None, :, :], n).max() > 10 * tol:
+                        t.violation(f"convex_hull does not contain the vertices after [read; {mname}] [{kind}]", case, {})
+                        continue
+                    obb = g.bounding_box_oriented
+                    T = np.asarray(obb.primitive.transform)
+                    Q = (P - T[:3, 3]) @ T[:3, :3]
+                    if (np.abs(Q) > np.asarray(obb.primitive.extents) / 2 + 10 * tol).any():
+                        t.violation(f"bounding_box_oriented does not contain the vertices after [read; {mname}] [{kind}]", case, {})
+                        continue
+                    sp = g.bounding_sphere
+                    if np.linalg.norm(P - np.asarray(sp.primitive.center), axis=1).max() > float(sp.primitive.radius) * (1 + 1e-7) + tol:
+                        t.violation(f"bounding_sphere does not contain the vertices after [read; {mname}] [{kind}]", case, {})
+                        continue
+                    cy = g.bounding_cylinder
+                    Tc = np.asarray(cy.primitive.transform)
+                    Qc = (P - Tc[:3, 3]) @ Tc[:3, :3]
+                    if np.linalg.norm(Qc[:, :2], axis=1).max() > float(cy.primitive.radius) * (1 + 1e-4) + tol or np.abs(Qc[:, 2]).max() > float(cy.primitive.height) / 2 * (1 + 1e-4) + tol:
+                        t.violation(f"bounding_cylinder does not contain the vertices after [read; {mname}] [{kind}]", case, {})
+                        continue
+                    if not np.allclose(np.asarray(g.bounding_box.bounds), [P.min(axis=0), P.max(axis=0)], rtol=0, atol=10 * tol) or not np.allclose(np.asarray(g.bounds), [P.min(axis=0), P.max(axis=0)], rtol=0, atol=10 * tol):
+                        t.violation(f"bounds / bounding_box are not the bounds of the vertices after [read; {mname}] [{kind}]", case, {})
+                except Exception as e:
+                    t.violation(f"bounding volumes after [read; {mname}] raise {type(e).__name__} [{kind}]", case, {"exc": repr(e)[:200]})
+    return t
+
+
 def _w_clustered(_):
     """Clustered sets: lattice points plus copies displaced by 1e-7."""
     t = harness.Tally()
@@ -348,6 +410,8 @@ def replay(case):
         t.merge(_w_2d((k, n, tot)))
     elif fam == "mesh":
         t.merge(_w_meshes(None))
+    elif fam == "history":
+        t.merge(_w_history(None))
     else:
         t.merge(_w_clustered(None))
     return [(k, d) for k, c, d in t.violations]
@@ -373,7 +437,7 @@ def main(run):
     for k in (3, 4, 5):
         for sl in range(4):
             tasks.append((_w_2d, (k, sl, 4)))
-    tasks += [(_w_meshes, None), (_w_clustered, None)]
+    tasks += [(_w_meshes, None), (_w_clustered, None), (_w_history, None)]
     run.log(f"{len(tasks)} tasks")
     res = harness.pmap(_run, tasks)
     run.merge(res)
